@@ -1004,6 +1004,9 @@ pub fn plan(prop: &str, tier: &str) -> Option<Plan> {
                     if q && a.n > 24 {
                         a.n = 24;
                     }
+                    if !q && a.universe > 4 && (a.hk == H_CONST || a.hk == H_LOW) {
+                        a.universe = 4; // (the clustering hashers are an order of magnitude slower under asan)
+                    }
                     s.push(a);
                 }
             }
